@@ -30,7 +30,9 @@ var subdecHooks = map[string]func(ids []string, trim func(string) string) string
 
 const subdecK = 3 // messages per subscription at most (constant K of the trace specification)
 
-func subdecRun(r *tr.Run, rng *rand.Rand) {
+// waitCancel: Close is called only after the output channel of every cancelled subscription was closed (bounded wait): cancelling
+// a subscription completes on its own, whether or not its consumer still reads.
+func subdecRun(r *tr.Run, rng *rand.Rand, waitCancel bool) {
 	prefix := fmt.Sprintf("r%d-", r.ID)
 	trim := func(s string) string { return strings.TrimPrefix(s, prefix) }
 	inner := scripted.NewSub("inner")
@@ -39,9 +41,20 @@ func subdecRun(r *tr.Run, rng *rand.Rand) {
 		r.Emit("error", "what", err.Error())
 		return
 	}
+	var hmu sync.Mutex
+	outClosed := map[string]chan struct{}{"pump:s1": make(chan struct{}), "pump:s2": make(chan struct{})}
 	onHook := func(point string, ids []string) {
 		if f, ok := subdecHooks[point]; ok && len(ids) > 0 {
-			r.Emit("hook", "g", f(ids, trim), "point", point)
+			g := f(ids, trim)
+			r.Emit("hook", "g", g, "point", point)
+			if point == "decorator.sub.closed" {
+				hmu.Lock()
+				if ch := outClosed[g]; ch != nil {
+					close(ch)
+					outClosed[g] = nil
+				}
+				hmu.Unlock()
+			}
 		}
 	}
 	defer sched.Observe(prefix, onHook)()
@@ -70,10 +83,23 @@ func subdecRun(r *tr.Run, rng *rand.Rand) {
 		subs = append(subs, "s2")
 	}
 	closeStarted := make(chan struct{})
+	cancelled := map[string]chan struct{}{} // closed once the subscription's cancel (if it has one) was issued, or will never be
+	var toWait []string
+	for _, s := range []string{"s1", "s2"} {
+		cancelled[s] = make(chan struct{})
+	}
 	for _, s := range subs {
 		s := s
 		nEmit, readN, doCancel := rnd(subdecK+1), rnd(subdecK+2), rnd(3) == 0 // readN > K: reads until the channel is closed
-		lateSub := rnd(6) == 0                                                // Subscribe only after Close has begun
+		lateSub := rnd(6) == 0 && !waitCancel                                 // Subscribe only after Close has begun
+		if doCancel && waitCancel {
+			toWait = append(toWait, s)
+			// the forwarder is left holding a message that nobody reads (the consumer stops one short), then the context ends
+			if nEmit == 0 {
+				nEmit = 1
+			}
+			readN = nEmit - 1
+		}
 		wg.Add(1)
 		go func() {
 			defer wg.Done()
@@ -90,8 +116,12 @@ func subdecRun(r *tr.Run, rng *rand.Rand) {
 			ch, err := dec.Subscribe(ctx, topic)
 			r.Emit("subret", "s", s, "ok", err == nil)
 			if err != nil {
+				close(cancelled[s])
 				return
 			}
+			hmu.Lock()
+			watch := outClosed["pump:"+s]
+			hmu.Unlock()
 			var inwg sync.WaitGroup
 			inwg.Add(2)
 			go func() { // consumer
@@ -113,8 +143,10 @@ func subdecRun(r *tr.Run, rng *rand.Rand) {
 					nap()
 				}
 			}()
+			emitDone := make(chan struct{})
 			go func() { // the inner subscriber's side of this subscription
 				defer inwg.Done()
+				defer close(emitDone)
 				sps := inner.Subs(topic)
 				if len(sps) == 0 {
 					return
@@ -130,9 +162,20 @@ func subdecRun(r *tr.Run, rng *rand.Rand) {
 			if doCancel {
 				nap()
 				nap()
+				if waitCancel {
+					<-waitOr(emitDone, HangBound/2)
+				}
 				r.Emit("cancel", "s", s)
 				cancel()
+				if waitCancel {
+					select {
+					case <-watch:
+					case <-time.After(HangBound / 2):
+						r.Emit("hung", "what", "output channel not closed after its context was cancelled", "s", s)
+					}
+				}
 			}
+			close(cancelled[s])
 			inwg.Wait()
 		}()
 	}
@@ -141,6 +184,9 @@ func subdecRun(r *tr.Run, rng *rand.Rand) {
 		defer wg.Done()
 		for k := rnd(5); k > 0; k-- {
 			nap()
+		}
+		for _, s := range toWait {
+			<-cancelled[s]
 		}
 		r.Emit("closecall")
 		close(closeStarted)
